@@ -289,6 +289,11 @@ pub fn c08_scenario(seed: u64, idx: u64) -> Scenario {
     sc.workers = *rng.pick(&[1usize, 2, 2, 3, 4, 4, 8, 16]);
     sc.request_size = 10000;
     sc.yields = all_yields();
+    // half of the runs: threads are held back right before synchronisation operations (check, then
+    // act on shared state under two lock acquisitions: the others get in between)
+    if rng.chance(1, 2) {
+        sc.yields.push("sync_delay".into());
+    }
     if rng.chance(1, 4) {
         sc.env = cors_env(&mut rng);
     }
